@@ -562,6 +562,8 @@ def ctx_stream(tier, seed, *, scale=1.0, with_wide=True, max_rnd=None, with_huge
         yield from exh(3, 3)
         yield from rnd(seed, int(3200 * scale), *(max_rnd or (9, 9)))
         yield from struct(seed, [2, 3, 4, 5, 6])
+        yield from via_variants(seed, int(240 * scale))
+        yield from crc_twins(seed, int(16 * scale))
         yield from tall(seed, int(60 * scale))
         if with_wide:
             yield from wide(seed, int(48 * scale))
@@ -583,6 +585,8 @@ def ctx_stream(tier, seed, *, scale=1.0, with_wide=True, max_rnd=None, with_huge
         structs = list(struct(seed, [2, 3, 4, 5, 6, 7, 8, 9, 10]))
         yield from structs
         yield from near(structs[::3], seed, per=int(3 * scale) or 1)
+        yield from via_variants(seed, int(4800 * scale))
+        yield from crc_twins(seed, int(240 * scale))
         yield from tall(seed, int(2000 * scale))
         if with_wide:
             yield from wide(seed, int(1200 * scale))
@@ -596,6 +600,81 @@ def ctx_stream(tier, seed, *, scale=1.0, with_wide=True, max_rnd=None, with_huge
         yield from (c for c in longaxis(seed, max(2, int(24 * scale))) if with_wide or len(c['properties']) < 64)
         if with_huge:
             yield from huge(seed, max(2, int(16 * scale)))
+
+
+VIAS = ['fromdict', 'fromdict-raw', 'fromdict-raw-sorted', 'fromdict-raw-reversed', 'json', 'json-raw',
+        'literal', 'pickle', 'pickle-lattice', 'pickle-member', 'deepcopy', 'copy', 'second-lattice',
+        'edited-export-fromdict', 'edited-export-pickle', 'edited-export-json']
+
+
+def via_variants(seed, count, tag='VIA'):
+    """Small and medium tables whose context reaches the driver through a persistence route
+    (``case['via']``, see ``props.common.via``): the property's whole workload then runs on a loaded /
+    unpickled / copied context and on its *stored* lattice."""
+    rng = random.Random(f'{seed}/{tag}')
+    for k in range(count):
+        n, m = rng.randint(1, 9), rng.randint(1, 9)
+        rows = rnd_rows(rng, n, m, DENSITIES[k % len(DENSITIES)])
+        if k % 3 == 0:
+            rows, m = decorate(rows, m, rng.choice(DECORATIONS), rng)
+        c = case(tag, rows, m, SCHEMES[k % 5], rng)
+        c['via'] = VIAS[k % len(VIAS)]
+        yield c
+
+
+def _crc_twin(objects, properties, rows, rng):
+    """Another table over the same labels whose table text has the same CRC-32 (CRC is affine over
+    GF(2): a set of cell flips whose checksum differences cancel is found by elimination)."""
+    import zlib
+    from . import refio
+    m = len(properties)
+
+    def crc(rs):
+        text = refio.write_table(objects, properties, [tuple(bool(r >> j & 1) for j in range(m)) for r in rs], style=0)
+        return zlib.crc32(text.rstrip('\n').encode('utf-8'))
+    base = crc(rows)
+    cells = [(i, j) for i in range(len(rows)) for j in range(m)]
+    rng.shuffle(cells)
+    basis = {}
+    for idx, (i, j) in enumerate(cells):
+        rs = list(rows)
+        rs[i] ^= 1 << j
+        v, combo = crc(rs) ^ base, 1 << idx
+        while v:
+            hb = v.bit_length() - 1
+            if hb not in basis:
+                basis[hb] = (v, combo)
+                break
+            bv, bc = basis[hb]
+            v ^= bv
+            combo ^= bc
+        else:
+            twin = list(rows)
+            for k, (a, b) in enumerate(cells):
+                if combo >> k & 1:
+                    twin[a] ^= 1 << b
+            if twin != list(rows) and crc(twin) == base:
+                return twin
+    return None
+
+
+def crc_twins(seed, count, tag='CRCTWIN'):
+    """Pairs of different tables over the same labels with equal CRC-32 of the table text - the
+    fingerprint ``Context`` shows in its repr.  ``case['twin_rows']`` is built and queried first."""
+    rng = random.Random(f'{seed}/{tag}')
+    shapes = [(6, 6), (7, 6), (6, 8), (8, 8), (5, 9), (9, 5), (3, 13), (13, 3), (7, 7), (9, 9), (4, 10), (10, 4)]
+    made = 0
+    for k in range(count * 3):
+        if made >= count:
+            break
+        n, m = shapes[k % len(shapes)]
+        rows = rnd_rows(rng, n, m, rng.choice([.3, .5, .7]))
+        o, p = labels(n, m, ['plain', 'rev', 'shared', 'unicode', 'shuffled'][k % 5], rng)
+        twin = _crc_twin(o, p, rows, rng)
+        if twin is None:
+            continue
+        made += 1
+        yield {'fam': tag, 'objects': o, 'properties': p, 'rows': rows, 'twin_rows': twin}
 
 
 def table_key(c):
